@@ -12,6 +12,7 @@ import PqlModel.Props.C05WriteIR
 import PqlModel.Props.C05WriteIROps
 import PqlModel.Props.C05WriteIRAll
 import PqlModel.Props.C05WriteIRStmt
+import PqlModel.Props.C02SplitImperative
 #print axioms Pql.C05.C05_ends_with_semicolon
 #print axioms Pql.C05.C05_subqueryName_injective
 #print axioms Pql.C05.C05_chain_names_by_index
